@@ -33,7 +33,10 @@ def work(slot_seed):
                VERIF_MAX_REPORTS="2", VERIF_SHRINK="40")
     for c in checks:
         t = time.time()
-        p = subprocess.run(["/verif/check", c, "quick"], env=env, capture_output=True, text=True)
+        # first with an early stop (the campaign ends once 3 failing runs exist); a full campaign only if that reports nothing
+        p = subprocess.run(["/verif/check", c, "quick"], env=dict(env, VERIF_STOP_ON_VIOLATION="3"), capture_output=True, text=True)
+        if p.returncode != 1:
+            p = subprocess.run(["/verif/check", c, "quick"], env=env, capture_output=True, text=True)
         res["now"][c] = {"rc": p.returncode, "violation_lines": sum(l.startswith("VIOLATION") for l in p.stdout.splitlines()),
                          "wall_s": round(time.time() - t, 1)}
         if p.returncode == 1:
